@@ -144,6 +144,23 @@ class PropZoo(Expr):
     hidden: int = field(default=0, compare=False)
 
 
+_SERIAL = [0]
+
+
+@dataclass(frozen=True)
+class Serial(Expr):
+    """carries a bookkeeping property that is neither an init argument nor comparable and differs between
+    otherwise equal nodes"""
+
+    v: int = 0
+    serial: int = field(default=0, init=False, compare=False)
+
+    def __post_init__(self) -> None:
+        _SERIAL[0] += 1
+        object.__setattr__(self, "serial", _SERIAL[0])
+        super().__post_init__()
+
+
 @dataclass(frozen=True, slots=True)
 class Slotted(Expr):
     """a slotted node class (dataclass re-creates the class object: its name is registered twice)"""
@@ -191,6 +208,7 @@ CHILD_FIELDS: dict[type, list[tuple[str, bool]]] = {
     Two: [],
     Picky: [],
     Slotted: [],
+    Serial: [],
 }
 ALL_CLASSES = list(CHILD_FIELDS)
 LEAF_CLASSES = [Leaf, Leaf2, Falsy, PropZoo, Two]
@@ -285,7 +303,8 @@ class Gen:
             n = Falsy(n=r.randint(0, 2), origin=o)
         elif k < 0.92:
             elems = [r.randint(0, 40) for _ in range(r.randint(0, 4))]
-            n = PropZoo(e=r.choice(list(Color)), t=tuple(r.randint(0, 3) for _ in range(r.randint(0, 3))),
+            n = PropZoo(e=r.choice(list(Color)), t=tuple(r.choice([r.randint(0, 3), r.randint(0, 3), True, False, 1.0, 0.0])
+                                                      for _ in range(r.randint(0, 3))),
                         fs=frozenset(elems), o=r.choice([None, 0, 1]), lit=r.choice(["a", "b"]),
                         p=Path(r.choice([".", "a/b", "/x"])), fl=r.choice([0.0, 1.5, -2.25, 1e10]),
                         fss=frozenset(gen_str(r) for _ in range(r.randint(0, 4))),
@@ -294,8 +313,10 @@ class Gen:
                         hidden=r.randint(0, 1), origin=o)
         elif k < 0.95:
             n = Two(a=gen_str(r), b=gen_str(r), origin=o)
-        elif k < 0.98:
+        elif k < 0.97:
             n = Slotted(v=r.randint(0, 3), origin=o)
+        elif k < 0.99:
+            n = Serial(v=r.randint(0, 3), origin=o)
         else:
             n = Expr(origin=o)
         self.pool.append(n)
